@@ -248,7 +248,10 @@ class Ctx:
             if self._is_known(v.signature):
                 return None
             raise
-        except (BudgetExhausted, HarnessError):
+        except HarnessError as e:
+            self.harness_errors.append({"oracle": key, "where": "HarnessError", "traceback": str(e)[-2000:]})
+            raise
+        except BudgetExhausted:
             raise
         except (KeyboardInterrupt, SystemExit):
             raise
